@@ -14,17 +14,33 @@ package cstate
 //       evidence through their wire encodings and reassembles the block from its parts;
 //   (5) round-trips the block, its parts, its meta and its commits through the database.
 //
+//   (6) recomputes every commitment the header carries with an INDEPENDENT reference (tx root: a
+//       go-ethereum trie filled in random order from the wire bytes; last-commit hash, evidence
+//       hash, validator-set hashes: an own RFC-6962/SHA-256 Merkle tree over the wire records;
+//       block hash: x/crypto Keccak over a hand-built protobuf header; block time: an own weighted
+//       median) — proposer and validator call the same helpers, so a helper that silently ignores
+//       an item is self-consistent and invisible to (2) unless exactly that item is mutated;
+//   (7) mutates the tx / commit-signature / evidence lists at every boundary index (first, second,
+//       last, last-1, 126..129, 254..257, two random): replace / drop / swap / duplicate; lists of
+//       0..257 transactions, 1..33 signatures, 0..17 pieces of evidence are generated regularly.
+//
 // The harness lives in package cstate (not types) because package trie imports types and the
 // unexported validateBlock is needed.
 
 import (
 	"bytes"
 	"crypto/ecdsa"
+	"crypto/sha256"
 	"fmt"
 	"io"
 	"math/big"
+	"sort"
 	"testing"
 	"time"
+
+	gethrlp "github.com/ethereum/go-ethereum/rlp"
+	gethtrie "github.com/ethereum/go-ethereum/trie"
+	"golang.org/x/crypto/sha3"
 
 	"github.com/kardiachain/go-kardia/configs"
 	"github.com/kardiachain/go-kardia/kai/kaidb/memorydb"
@@ -876,6 +892,416 @@ var vfbCommitUnhashed = map[string]bool{
 	"commit.block_id.parts.total": true, "commit.block_id.parts.hash": true,
 }
 
+
+// ---------------------------------------------------------------------------------------------
+// independent references (6)
+
+func vfbRefKeccak(b []byte) common.Hash {
+	h := sha3.NewLegacyKeccak256()
+	h.Write(b)
+	return common.BytesToHash(h.Sum(nil))
+}
+
+// vfbRefMerkle: RFC-6962 style tree of lib/merkle written from its specification: leaf =
+// SHA256(0x00||x), inner = SHA256(0x01||l||r), left subtree = largest power of two < n leaves.
+func vfbRefMerkle(items [][]byte) []byte {
+	switch len(items) {
+	case 0:
+		return nil
+	case 1:
+		h := sha256.Sum256(append([]byte{0}, items[0]...))
+		return h[:]
+	}
+	k := 1
+	for k*2 < len(items) {
+		k *= 2
+	}
+	l, r := vfbRefMerkle(items[:k]), vfbRefMerkle(items[k:])
+	buf := append([]byte{1}, l...)
+	buf = append(buf, r...)
+	h := sha256.Sum256(buf)
+	return h[:]
+}
+
+// vfbRefTxRoot: the Merkle-Patricia root over rlp(index) -> wire bytes of the transaction, from a
+// go-ethereum trie filled in a random order (the root does not depend on the insertion order).
+func vfbRefTxRoot(r *vfRand, txs [][]byte) common.Hash {
+	tr := new(gethtrie.Trie)
+	order := make([]int, len(txs))
+	for i := range order {
+		order[i] = i
+	}
+	for i := len(order) - 1; i > 0; i-- {
+		j := r.Intn(i + 1)
+		order[i], order[j] = order[j], order[i]
+	}
+	for _, i := range order {
+		k, _ := gethrlp.EncodeToBytes(uint(i))
+		tr.Update(k, txs[i])
+	}
+	return common.BytesToHash(tr.Hash().Bytes())
+}
+
+func vfbRefCommitHash(pc *kproto.Commit) common.Hash {
+	if pc == nil {
+		return common.Hash{}
+	}
+	bs := make([][]byte, len(pc.Signatures))
+	for i := range pc.Signatures {
+		bs[i], _ = pc.Signatures[i].Marshal()
+	}
+	return common.BytesToHash(vfbRefMerkle(bs))
+}
+
+func vfbRefEvidenceHash(pb *kproto.Block) (common.Hash, bool) {
+	n := len(pb.Evidence.Evidence)
+	if n == 0 {
+		return common.Hash{}, true
+	}
+	bs := make([][]byte, n)
+	for i := 0; i < n; i++ {
+		d := vfbEvOf(pb, i)
+		if d == nil {
+			return common.Hash{}, false
+		}
+		bz, _ := d.Marshal()
+		bs[i] = vfbRefKeccak(bz).Bytes()
+	}
+	return common.BytesToHash(vfbRefMerkle(bs)), true
+}
+
+func vfbRefValsHash(vs *types.ValidatorSet) common.Hash {
+	if vs == nil || len(vs.Validators) == 0 {
+		return common.Hash{}
+	}
+	bs := make([][]byte, len(vs.Validators))
+	for i, v := range vs.Validators {
+		sv := kproto.SimpleValidator{Address: append([]byte{}, v.Address[:]...), VotingPower: v.VotingPower}
+		bs[i], _ = sv.Marshal()
+	}
+	return common.BytesToHash(vfbRefMerkle(bs))
+}
+
+// vfbRefHeaderHash: Keccak-256 of the protobuf header built field by field here (not by ToProto).
+func vfbRefHeaderHash(h *types.Header) common.Hash {
+	ph := kproto.Header{
+		Height: h.Height,
+		Time:   h.Time,
+		LastBlockId: kproto.BlockID{
+			Hash:          append([]byte{}, h.LastBlockID.Hash[:]...),
+			PartSetHeader: kproto.PartSetHeader{Total: h.LastBlockID.PartsHeader.Total, Hash: append([]byte{}, h.LastBlockID.PartsHeader.Hash[:]...)},
+		},
+		LastCommitHash:     append([]byte{}, h.LastCommitHash[:]...),
+		DataHash:           append([]byte{}, h.TxHash[:]...),
+		ValidatorsHash:     append([]byte{}, h.ValidatorsHash[:]...),
+		NextValidatorsHash: append([]byte{}, h.NextValidatorsHash[:]...),
+		ConsensusHash:      append([]byte{}, h.ConsensusHash[:]...),
+		AppHash:            append([]byte{}, h.AppHash[:]...),
+		EvidenceHash:       append([]byte{}, h.EvidenceHash[:]...),
+		ProposerAddress:    append([]byte{}, h.ProposerAddress[:]...),
+		GasLimit:           h.GasLimit,
+		NumTxs:             h.NumTxs,
+	}
+	bz, _ := ph.Marshal()
+	return vfbRefKeccak(bz)
+}
+
+// vfbRefMedianTime: voting-power weighted median of the non-absent signatures' timestamps.
+func vfbRefMedianTime(c *types.Commit, vs *types.ValidatorSet) time.Time {
+	type wt struct {
+		t time.Time
+		w int64
+	}
+	var l []wt
+	total := int64(0)
+	for _, s := range c.Signatures {
+		if s.BlockIDFlag == types.BlockIDFlagAbsent {
+			continue
+		}
+		for _, v := range vs.Validators {
+			if v.Address == s.ValidatorAddress {
+				l = append(l, wt{s.Timestamp, v.VotingPower})
+				total += v.VotingPower
+				break
+			}
+		}
+	}
+	sort.SliceStable(l, func(i, j int) bool { return l[i].t.Before(l[j].t) })
+	m := total / 2
+	for _, x := range l {
+		if m <= x.w {
+			return x.t
+		}
+		m -= x.w
+	}
+	return time.Time{}
+}
+
+// vfbTinyTx: a small transaction that differs from every generated one (huge nonce).
+func vfbTinyTx(k uint64) *types.Transaction {
+	return types.NewTransaction(k, common.BytesToAddress([]byte{0xaa}), big.NewInt(int64(1000+k%1000)), 21000, big.NewInt(1), nil)
+}
+
+// vfbReferenceChecks compares what the real code put into the header with the references, and
+// checks with the real hash functions that replacing ANY single item of a committed list changes
+// the commitment.
+func vfbReferenceChecks(rep *vfbReporter, r *vfRand, desc string, block *types.Block, pb *kproto.Block,
+	state LatestBlockState, txs []*types.Transaction, commit *types.Commit, evidence []types.Evidence) {
+	o := rep.o
+	h := block.Header()
+	if w := vfbRefTxRoot(r, pb.Data.Txs); w != h.TxHash {
+		rep.viol(3, "reference-differs:tx-root", fmt.Sprintf("%s txs=%d header=%x reference(geth trie)=%x", desc, len(pb.Data.Txs), h.TxHash[:8], w[:8]))
+	}
+	if g := types.DeriveSha(types.Transactions(txs), trie.NewStackTrie(nil)); len(txs) > 0 && g != h.TxHash {
+		rep.viol(3, "reference-differs:tx-root-recomputed", fmt.Sprintf("%s txs=%d", desc, len(txs)))
+	}
+	if pb.LastCommit != nil {
+		if w := vfbRefCommitHash(pb.LastCommit); w != h.LastCommitHash {
+			rep.viol(3, "reference-differs:last-commit-hash", fmt.Sprintf("%s sigs=%d header=%x reference=%x", desc, len(pb.LastCommit.Signatures), h.LastCommitHash[:8], w[:8]))
+		}
+	}
+	if w, ok := vfbRefEvidenceHash(pb); ok && w != h.EvidenceHash {
+		rep.viol(3, "reference-differs:evidence-hash", fmt.Sprintf("%s ev=%d header=%x reference=%x", desc, len(pb.Evidence.Evidence), h.EvidenceHash[:8], w[:8]))
+	}
+	if w := vfbRefHeaderHash(h); w != block.Hash() {
+		rep.viol(3, "reference-differs:block-hash", fmt.Sprintf("%s hash=%x reference=%x", desc, block.Hash().Bytes()[:8], w[:8]))
+	}
+	for name, vs := range map[string]*types.ValidatorSet{"validators": state.Validators, "next-validators": state.NextValidators, "last-validators": state.LastValidators} {
+		if vs == nil {
+			continue
+		}
+		if w, g := vfbRefValsHash(vs), vs.Hash(); w != g {
+			rep.viol(3, "reference-differs:"+name+"-hash", fmt.Sprintf("%s n=%d real=%x reference=%x", desc, vs.Size(), g[:8], w[:8]))
+		}
+	}
+	if commit != nil && len(commit.Signatures) > 0 {
+		if w, g := vfbRefMedianTime(commit, state.LastValidators), MedianTime(commit, state.LastValidators); !w.Equal(g) {
+			rep.viol(3, "reference-differs:median-time", fmt.Sprintf("%s sigs=%d real=%v reference=%v", desc, len(commit.Signatures), g, w))
+		}
+	}
+	o.Stat("ref:checked")
+
+	// every index of every committed list, with the real hash functions
+	if n := len(txs); n > 0 {
+		alt := make([]*types.Transaction, n)
+		for k := 0; k < n; k++ {
+			copy(alt, txs)
+			alt[k] = vfbTinyTx(uint64(1)<<40 + uint64(k))
+			if types.DeriveSha(types.Transactions(alt), trie.NewStackTrie(nil)) == h.TxHash {
+				rep.viol(3, "tx-root-not-binding:replace", fmt.Sprintf("%s txs=%d index=%d: root unchanged after replacing the transaction", desc, n, k))
+			}
+		}
+		o.StatN("ref:tx-index-replaced", n)
+	}
+	if commit != nil {
+		for k := range commit.Signatures {
+			sigs := append([]types.CommitSig{}, commit.Signatures...)
+			sigs[k].Timestamp = sigs[k].Timestamp.Add(time.Nanosecond)
+			if types.NewCommit(commit.Height, commit.Round, commit.BlockID, sigs).Hash() == h.LastCommitHash {
+				rep.viol(3, "commit-hash-not-binding:replace", fmt.Sprintf("%s sigs=%d index=%d", desc, len(sigs), k))
+			}
+		}
+		o.StatN("ref:sig-index-replaced", len(commit.Signatures))
+	}
+	if n := len(evidence); n > 0 {
+		for k := 0; k < n; k++ {
+			alt := append(types.EvidenceList{}, evidence...)
+			d, ok := evidence[k].(*types.DuplicateVoteEvidence)
+			if !ok {
+				continue
+			}
+			c := *d
+			c.ValidatorPower++
+			alt[k] = &c
+			if alt.Hash() == h.EvidenceHash {
+				rep.viol(3, "evidence-hash-not-binding:replace", fmt.Sprintf("%s ev=%d index=%d", desc, n, k))
+			}
+		}
+		o.StatN("ref:ev-index-replaced", n)
+	}
+}
+
+// ---------------------------------------------------------------------------------------------
+// list mutations at the boundary indexes (7)
+
+func vfbIdxLabel(i, n int) string {
+	switch {
+	case (i >= 126 && i <= 129) || (i >= 254 && i <= 257):
+		return fmt.Sprint(i)
+	case i == 0:
+		return "first"
+	case i == 1:
+		return "second"
+	case i == n-1:
+		return "last"
+	case i == n-2:
+		return "last-1"
+	}
+	return "rnd"
+}
+
+func vfbBoundaryIdx(r *vfRand, n int) []int {
+	if n == 0 {
+		return nil
+	}
+	seen := map[int]bool{}
+	var out []int
+	for _, i := range []int{0, 1, n - 2, n - 1, 126, 127, 128, 129, 254, 255, 256, 257, r.Intn(n), r.Intn(n)} {
+		if i >= 0 && i < n && !seen[i] {
+			seen[i] = true
+			out = append(out, i)
+		}
+	}
+	sort.Ints(out)
+	return out
+}
+
+// vfbListOps builds replace/drop/swap/dup mutations of item i for a list accessed through the
+// given functions (items are compared by their marshalled bytes).
+func vfbListOps(prefix string, i, n int, length func(pb *kproto.Block) int, bytesOf func(pb *kproto.Block, i int) []byte,
+	replace func(pb *kproto.Block, i int, c *vfbMutCtx) bool, remove func(pb *kproto.Block, i int),
+	swap func(pb *kproto.Block, i, j int), dup func(pb *kproto.Block, i int)) []vfbMutation {
+	lab := vfbIdxLabel(i, n)
+	ok := func(pb *kproto.Block) bool { return length(pb) == n }
+	return []vfbMutation{
+		{prefix + ".replace#" + lab, func(pb *kproto.Block, c *vfbMutCtx) bool { return ok(pb) && replace(pb, i, c) }},
+		{prefix + ".drop#" + lab, func(pb *kproto.Block, c *vfbMutCtx) bool {
+			if !ok(pb) {
+				return false
+			}
+			remove(pb, i)
+			return true
+		}},
+		{prefix + ".swap#" + lab, func(pb *kproto.Block, c *vfbMutCtx) bool {
+			if !ok(pb) || n < 2 {
+				return false
+			}
+			for _, j := range []int{i + 1, i - 1, (i + n/2) % n, 0, n - 1} {
+				if j >= 0 && j < n && j != i && !bytes.Equal(bytesOf(pb, i), bytesOf(pb, j)) {
+					swap(pb, i, j)
+					return true
+				}
+			}
+			return false
+		}},
+		{prefix + ".dup#" + lab, func(pb *kproto.Block, c *vfbMutCtx) bool {
+			if !ok(pb) {
+				return false
+			}
+			dup(pb, i)
+			return true
+		}},
+	}
+}
+
+func vfbBoundaryMutations(r *vfRand, pb *kproto.Block) []vfbMutation {
+	var out []vfbMutation
+	// transactions
+	ntx := len(pb.Data.Txs)
+	for _, i := range vfbBoundaryIdx(r, ntx) {
+		out = append(out, vfbListOps("tx", i, ntx,
+			func(pb *kproto.Block) int { return len(pb.Data.Txs) },
+			func(pb *kproto.Block, i int) []byte { return pb.Data.Txs[i] },
+			func(pb *kproto.Block, i int, c *vfbMutCtx) bool {
+				nb := vfbTxBytes(vfbTinyTx(uint64(1)<<41 + uint64(i)))
+				if bytes.Equal(nb, pb.Data.Txs[i]) {
+					return false
+				}
+				pb.Data.Txs[i] = nb
+				return true
+			},
+			func(pb *kproto.Block, i int) {
+				pb.Data.Txs = append(append([][]byte{}, pb.Data.Txs[:i]...), pb.Data.Txs[i+1:]...)
+			},
+			func(pb *kproto.Block, i, j int) { pb.Data.Txs[i], pb.Data.Txs[j] = pb.Data.Txs[j], pb.Data.Txs[i] },
+			func(pb *kproto.Block, i int) {
+				o := append([][]byte{}, pb.Data.Txs[:i+1]...)
+				o = append(o, pb.Data.Txs[i])
+				pb.Data.Txs = append(o, pb.Data.Txs[i+1:]...)
+			})...)
+	}
+	// commit signatures
+	if pb.LastCommit != nil {
+		ns := len(pb.LastCommit.Signatures)
+		for _, i := range vfbBoundaryIdx(r, ns) {
+			out = append(out, vfbListOps("sig", i, ns,
+				func(pb *kproto.Block) int {
+					if pb.LastCommit == nil {
+						return -1
+					}
+					return len(pb.LastCommit.Signatures)
+				},
+				func(pb *kproto.Block, i int) []byte { b, _ := pb.LastCommit.Signatures[i].Marshal(); return b },
+				func(pb *kproto.Block, i int, c *vfbMutCtx) bool {
+					s := pb.LastCommit.Signatures
+					// another validator's entry if there is a different one, else an altered signature
+					for d := 1; d < len(s); d++ {
+						j := (i + d) % len(s)
+						a, _ := s[i].Marshal()
+						b, _ := s[j].Marshal()
+						if !bytes.Equal(a, b) {
+							s[i] = s[j]
+							return true
+						}
+					}
+					if s[i].BlockIdFlag == kproto.BlockIDFlagAbsent {
+						return false
+					}
+					s[i].Signature = vfbFlip(s[i].Signature, c.r, 65)
+					return true
+				},
+				func(pb *kproto.Block, i int) {
+					s := pb.LastCommit.Signatures
+					pb.LastCommit.Signatures = append(append([]kproto.CommitSig{}, s[:i]...), s[i+1:]...)
+				},
+				func(pb *kproto.Block, i, j int) {
+					s := pb.LastCommit.Signatures
+					s[i], s[j] = s[j], s[i]
+				},
+				func(pb *kproto.Block, i int) {
+					s := pb.LastCommit.Signatures
+					o := append([]kproto.CommitSig{}, s[:i+1]...)
+					o = append(o, s[i])
+					pb.LastCommit.Signatures = append(o, s[i+1:]...)
+				})...)
+		}
+	}
+	// evidence
+	ne := len(pb.Evidence.Evidence)
+	for _, i := range vfbBoundaryIdx(r, ne) {
+		out = append(out, vfbListOps("ev", i, ne,
+			func(pb *kproto.Block) int { return len(pb.Evidence.Evidence) },
+			func(pb *kproto.Block, i int) []byte { b, _ := pb.Evidence.Evidence[i].Marshal(); return b },
+			func(pb *kproto.Block, i int, c *vfbMutCtx) bool {
+				if c.extraEv == nil {
+					return false
+				}
+				a, _ := pb.Evidence.Evidence[i].Marshal()
+				b, _ := c.extraEv.Marshal()
+				if bytes.Equal(a, b) {
+					return false
+				}
+				pb.Evidence.Evidence[i] = vfbCloneEv(c.extraEv)
+				return true
+			},
+			func(pb *kproto.Block, i int) {
+				e := pb.Evidence.Evidence
+				pb.Evidence.Evidence = append(append([]kproto.Evidence{}, e[:i]...), e[i+1:]...)
+			},
+			func(pb *kproto.Block, i, j int) {
+				e := pb.Evidence.Evidence
+				e[i], e[j] = e[j], e[i]
+			},
+			func(pb *kproto.Block, i int) {
+				e := pb.Evidence.Evidence
+				o := append([]kproto.Evidence{}, e[:i+1]...)
+				o = append(o, vfbCloneEv(&e[i]))
+				pb.Evidence.Evidence = append(o, e[i+1:]...)
+			})...)
+	}
+	return out
+}
+
 // ---------------------------------------------------------------------------------------------
 
 // vfbReporter limits the number of records per signature so that a frequent (known) signature
@@ -936,6 +1362,9 @@ func TestVerifC13Block(t *testing.T) {
 		// ================================================================ (1) state and a valid block
 		chainID := fmt.Sprintf("kai-verif-%d", r.Intn(3))
 		nv := r.Pick(1, 2, 3, 4, 4)
+		if r.Chance(15) {
+			nv = r.Pick(5, 7, 8, 9, 16, 17, 33) // longer commit signature lists
+		}
 		if vfThorough() && r.Chance(15) {
 			nv = 5 + r.Intn(3)
 		}
@@ -1006,10 +1435,21 @@ func TestVerifC13Block(t *testing.T) {
 			blockTime = MedianTime(commit, lastVals)
 		}
 
-		ntx := r.Pick(0, 0, 1, 2, 3, 5)
+		ntx := r.Pick(0, 0, 1, 2, 3, 5, 8, 17)
+		manyTxs := r.Chance(30)
+		if manyTxs {
+			// around the one-byte/two-byte RLP index boundary of DeriveSha (0x7f/0x80) and 0xff/0x100
+			ntx = r.Pick(126, 127, 128, 129, 130, 200, 255, 256, 257)
+		}
 		var txs []*types.Transaction
 		for k := 0; k < ntx; k++ {
-			if k > 0 && r.Chance(25) {
+			if manyTxs {
+				if r.Chance(3) && k > 0 {
+					txs = append(txs, txs[r.Intn(k)])
+				} else {
+					txs = append(txs, vfbTinyTx(uint64(k)+uint64(r.Intn(3))<<20)) // tiny, fast
+				}
+			} else if k > 0 && r.Chance(25) {
 				txs = append(txs, txs[r.Intn(k)]) // equal transactions (tiny universe)
 			} else {
 				txs = append(txs, vfbGenTx(r, keys))
@@ -1018,6 +1458,9 @@ func TestVerifC13Block(t *testing.T) {
 		nev := 0
 		if height >= 2 {
 			nev = r.Pick(0, 0, 0, 1, 1, 2)
+			if r.Chance(15) {
+				nev = r.Pick(3, 4, 5, 8, 9, 16, 17) // longer evidence lists
+			}
 		}
 		var evidence []types.Evidence
 		for k := 0; k < nev; k++ {
@@ -1077,9 +1520,9 @@ func TestVerifC13Block(t *testing.T) {
 			continue
 		}
 		o.Stat("gen:height:" + heightClass)
-		o.Stat(fmt.Sprintf("gen:txs:%d", len(txs)))
-		o.Stat(fmt.Sprintf("gen:evidence:%d", len(evidence)))
-		o.Stat(fmt.Sprintf("gen:validators:%d", nv))
+		o.Stat(fmt.Sprintf("gen:txs:%03d", len(txs)))
+		o.Stat(fmt.Sprintf("gen:evidence:%02d", len(evidence)))
+		o.Stat(fmt.Sprintf("gen:validators:%02d", nv))
 		o.Stat("gen:valsets:" + valsShape)
 		o.Stat(fmt.Sprintf("gen:commit-round:%d", commitRound))
 		for _, ch := range commitShape {
@@ -1105,6 +1548,11 @@ func TestVerifC13Block(t *testing.T) {
 		if !bytes.Equal(bzOrig, vfbBlockBytes(block)) {
 			rep.viol(3, "roundtrip:block:marshal-not-deterministic", desc)
 		}
+
+		// ================================================================ (6) independent references
+		vfGuard(o, "panic:reference-checks", func() string { return desc }, func() {
+			vfbReferenceChecks(rep, r, desc, block, pbOrig, state, txs, commit, evidence)
+		})
 
 		// warm executor for (3)
 		be := NewBlockExecutor(store, log.New(), evpool, nil)
@@ -1132,7 +1580,8 @@ func TestVerifC13Block(t *testing.T) {
 		mutCount := 0
 		classes := ""
 		mseed := r.U64()
-		for mi, m := range muts {
+		allMuts := append(append([]vfbMutation{}, muts...), vfbBoundaryMutations(vfFork(mseed, 999), pbOrig)...)
+		for mi, m := range allMuts {
 			field := m.field
 			ctx.r = vfFork(mseed, uint64(mi))
 			pb2 := new(kproto.Block)
